@@ -211,6 +211,10 @@ type MkDelay<M> = dyn for<'a> Fn(&'a GenericTimerService<M>, Duration) -> TFut<'
 
 fn run_any<M: RawMutex>(cfg: &Cfg, ops: &[Op], run: &mut Run, mk_deadline: &MkDeadline<M>, mk_delay: &MkDelay<M>) {
     tls::reset_history();
+    // a panic of the timer (its pairing heap asserts its own link consistency in debug builds)
+    // on a contract respecting history means the heap of registered deadlines is corrupt: without
+    // the assertion, registered timers are lost or expire out of order
+    run.panic_also = Some(("C15", ""));
     let use_mock = cfg.y == 1;
     let mock: &'static MockClock = MOCK.with(|m| *m);
     mock.set_time(0);
